@@ -34,6 +34,19 @@ CLAIMED["C14"] = dict(
     note=NOTE + "Modelled, not verified: the Python codec machinery (codecs.register, UnicodeEncodeError plumbing) and how CharLiteral/.ascii turn the exception into 'invalid-character' (exercised through the real assembler).",
 )
 
+CLAIMED["C04"] = dict(
+    text="Theorems over unbounded Int distances/addresses about the model of OffsetOperandStub's field computation and the relative-mode "
+         "displacement: a branch is accepted iff its offset is even and in -256..254 (SOB: -126..0), an accepted branch/SOB decodes by the "
+         "handbook's effective-address rule to exactly the target, an out-of-reach or odd offset reports an error and never yields a wrapped "
+         "field, the relative displacement stored at the address rel_address makes the processor compute the target modulo 2^16; every "
+         "offset stub of the regenerated table is the 8-bit signed or 6-bit unsigned field and comes after register stubs only. Tie: "
+         "exhaustive distance enumeration of every branch mnemonic and SOB and 7680 relative-operand placements through the real "
+         "assembler against the model, judged by the Lean Spec EA functions.",
+    design_ref="DESIGN.md §5 C04",
+    technique="Lean 4 theorems (omega over Int, decide +kernel on the regenerated table) + exhaustive model/implementation correspondence",
+    note=NOTE + "Modelled, not verified: operand classification and expression evaluation feeding the stubs (exercised through the real parser/compiler with several spellings).",
+)
+
 PENDING_REASON = "check not built yet (build in progress; see DESIGN.md §8 for the order)"
 
 
